@@ -1304,6 +1304,12 @@ func (a *Association) unregisterStream(s *Stream, err error) {
 
 	delete(a.streams, s.streamIdentifier)
 	s.readErr = err
+	if s.readTimeoutCancel != nil {
+		// the read deadline goroutine would otherwise outlive the association
+		// until its (possibly distant) deadline
+		close(s.readTimeoutCancel)
+		s.readTimeoutCancel = nil
+	}
 	s.readNotifier.Broadcast()
 }
 
